@@ -50,6 +50,17 @@ void Runner<T, E>::run_impl(Plan const& p, std::vector<std::size_t> const& calls
     std::vector<hep::distribution_parameters<T>> params;
     if (Dist) params = dist_params(p);
 
+    if (Dist && ctl.params_from_chkpt && nresults() != 0)
+    {
+        // a continued run whose program takes the binning from the checkpoint it read instead of
+        // constructing it again
+        std::vector<hep::distribution_parameters<T>> stored;
+        if (integ_ == PLAIN) for (auto const& d : pc_->results().back().distributions()) stored.push_back(d.parameters());
+        else if (integ_ == VEGAS) for (auto const& d : vc_->results().back().distributions()) stored.push_back(d.parameters());
+        else for (auto const& d : mc_->results().back().distributions()) stored.push_back(d.parameters());
+        if (stored.size() == params.size()) params = stored;
+    }
+
     PlainFunc<T> pf;
     pf.plan = &p;
     pf.cmap = &cmap;
@@ -151,6 +162,7 @@ void Runner<T, E>::run_impl(Plan const& p, std::vector<std::size_t> const& calls
     int const P = static_cast<int>(ctl.P);
     MpiWorld w(P, ctl.sseed, ctl.rorder, ctl.stall_p);
     w.step_budget = static_cast<u64>(P) * (2 * calls.size() + 4) + 64;
+    w.fs_yield_p = ctl.fs_yield_p;
 
     for (auto const& s : ctl.stalls)
     {
@@ -227,6 +239,7 @@ void Runner<T, E>::run_impl(Plan const& p, std::vector<std::size_t> const& calls
     out.interleave = w.interleave.h;
     out.reorders = w.reorders;
     out.stalls = w.stalls_fired;
+    out.fs_yields = w.fs_yields;
 
     bool all_returned = true;
 
